@@ -53,7 +53,9 @@ Definition step (classify : N -> cls) (s : tstate) (i : nat) (c : N) : tstate + 
         else if c =? q then inl (set_qc (set_cur s (update (cur s) c i None)) qrest)
         else
           let push := if ((c =? cBT) || (c =? cLP) || (c =? cLS) || (c =? cDQ) || (c =? cSQ)) && ((q =? cRB) || (q =? cRP) || (q =? cRS))
-                      then [if c =? cLP then cRP else if c =? cLS then cRS else c] else [] in
+                      then [if c =? cLP then cRP else if c =? cLS then cRS else c]
+                      else if (c =? cLB) && (q =? cRB) then [cRB]      (* a brace directly inside a brace-quoted fragment nests *)
+                      else [] in
           inl (set_qc (set_cur s (update (cur s) c i None)) (push ++ qc s))
     | [] =>
         if c =? cPCT then let s1 := yield_cur s in inl (set_qc (set_cur s1 (fresh_k KOperator i)) [cPCT])
